@@ -106,3 +106,10 @@ CASES += [
     t("copy made with numpy.array", 
       "            return SuperOperator(data=self.data[ti, :, :, :, :].copy())", "            return SuperOperator(data=numpy.array(self.data[ti, :, :, :, :]))"),
 ]
+
+CASES += [
+    m("at() selects the lower neighbour of the requested time (the repaired defect)", "C08-E",
+      "            ti = self.time.nearest(time)\n\n            # the superoperator handed out", "            ti, dt = self.time.locate(time)\n\n            # the superoperator handed out"),
+    m("apply() selects the lower neighbour of the requested time", "C08-E",
+      "            ti = self.time.nearest(time)\n            if copy:", "            ti, dt = self.time.locate(time)\n            if copy:"),
+]
